@@ -140,6 +140,7 @@ package ratelimit
 
 //@ func NewTokenBucketSet
 //@   props C03 C13
+//@   holds TokenLimiter.mutex
 //@   trusted
 //@   readsclock
 //@   requires ratesOK(rates)
@@ -147,8 +148,14 @@ package ratelimit
 //@   ensures full: forall k int :: in(k, result.buckets) ==> fresh(result.buckets[k]) && result.buckets[k].availableTokens == result.buckets[k].burst && result.buckets[k].lastRefresh == lastclock && result.buckets[k].lastConsumed == 0
 //@   ensures max_period: (forall k int :: in(k, result.buckets) ==> k <= result.maxPeriod) && in(result.maxPeriod, result.buckets)
 
+//@ func (*TokenBucketSet).GetMaxPeriod
+//@   props C09
+//@   holds TokenLimiter.mutex
+//@   ensures result == tbs.maxPeriod
+
 //@ func (*TokenBucketSet).Update
 //@   props C03 C13
+//@   holds TokenLimiter.mutex
 //@   trusted
 //@   readsclock
 //@   requires setOK(tbs) && ratesOK(rates)
